@@ -139,8 +139,7 @@ class FixedPoint(core.Surface):
         if not (nofn and rend and hyp_out):
             return ("EXC", "EUndefined", "")        # unrendered output: F20 / F14b stream
         if not hyp_in:
-            # a function object in the place of a whole resource, or a gating condition NAME that rendering rewrites
-            # (conditions called True / FALSE): C03_model_fixed_point_needs_wf
+            # a function object in the place of a whole resource (or an object with a repeated key)
             return ("EXC", "EUndefined", "")
         r2 = core.model_res(second)
         if r2 != r:
